@@ -95,9 +95,9 @@ def ioKind (mode : Option IoMode) (l : Line) : Option (IoKind × Nat × Nat) := 
   | "r2o", [.reg k, .out o] => some (.outAsync, k, o)
   | "r2owa", [.reg k, .out o] => some (.outSync, k, o)
   | "mov", [.reg k, .inp i] =>
-    match mode with | some .async => some (.inAsync, k, i) | some .sync => some (.inSync, k, i) | none => none
+    match lineMode mode l with | some .async => some (.inAsync, k, i) | some .sync => some (.inSync, k, i) | none => none
   | "mov", [.out o, .reg k] =>
-    match mode with | some .async => some (.outAsync, k, o) | some .sync => some (.outSync, k, o) | none => none
+    match lineMode mode l with | some .async => some (.outAsync, k, o) | some .sync => some (.outSync, k, o) | none => none
   | _, _ => none
 
 def execIo (e : Env) (next : Nat) (s : RefState) : IoKind × Nat × Nat → RefState
